@@ -397,8 +397,13 @@ func loadCorpus(outDir string) (htmlC, mdC []string, src string) {
 var tagNames = []string{"b", "strong", "i", "em", "u", "ins", "s", "strike", "del", "a", "pre", "code", "span", "tg-spoiler", "tg-emoji", "blockquote", "tg-time", "div", "p", "br", "script", "title", "textarea", "B", "Code"}
 var attrSnips = []string{"", ` href="http://x.y/"`, ` href=telegram.org`, ` href="tg://user?id=12"`, ` href="tg://user?id=x"`, ` href=":"`, ` href=""`, ` class="tg-spoiler"`, ` class="language-go"`, ` class="language-"`, ` class=x class="tg-spoiler"`,
 	` emoji-id="5368324170671202286"`, ` emoji-id="99999999999999999999"`, ` emoji-id="-12"`, ` emoji-id="+"`, ` unix="1647531900" format="t"`, ` unix="x"`, ` unix="1" format="q"`, ` expandable`, ` a=b c='d' e`, ` href="http://[::1]/"`, ` href="%zz"`}
-var textSnips = []string{"a", "bc ", " ", "\n", "\t\r", "x ", " ", "\U0001F600", "\U0001F3F3️‍\U0001F308", "é", "中", "&lt;", "&gt", "&amp;", "&quot;", "&", "&#", "&#1", "&#1x", "&#12x", "&#65;", "&#x41;", "&#X1f600;", "&#xD800;", "&#57311;", "&#0;", "&#1114111;", "&#1114110;",
-	"&#4294967361;", "&#x100000041;", "&#99999999999999999999;", "&#x;", "&;", "&laquo;", "&ltx;", "&lt;&gt;&amp", "telegram.org", "http://a.b/c", "tg://user?id=5", "�", "<", ">", "\x00"}
+
+// code points at the boundaries of UTF-8 widths, of the surrogate gap and of the BMP, raw and as
+// numeric references (the unit count of each decides every later offset)
+var boundarySnips = []string{"\u007f", "\u0080", "\u07ff", "\u0800", "\ud7ff", "\ue000", "\ufffc", "\ufffd", "\ufffe", "\uffff", "\U00010000", "\U00010001", "\U0010ffff",
+	"&#xFFFF;", "&#65535;", "&#xFFFE;", "&#x10000;", "&#65536;", "&#xD7FF;", "&#xE000;", "&#x7FF;", "&#x800;", "&#x10FFFE;", "&#xFFFD;"}
+var textSnips = append([]string{"a", "bc ", " ", "\n", "\t\r", "x ", " ", "\U0001F600", "\U0001F3F3️‍\U0001F308", "é", "中", "&lt;", "&gt", "&amp;", "&quot;", "&", "&#", "&#1", "&#1x", "&#12x", "&#65;", "&#x41;", "&#X1f600;", "&#xD800;", "&#57311;", "&#0;", "&#1114111;", "&#1114110;",
+	"&#4294967361;", "&#x100000041;", "&#99999999999999999999;", "&#x;", "&;", "&laquo;", "&ltx;", "&lt;&gt;&amp", "telegram.org", "http://a.b/c", "tg://user?id=5", "�", "<", ">", "\x00"}, boundarySnips...)
 var badBytes = [][]byte{{0xf0, 0x9f}, {0x98, 0x80}, {0xc2}, {0xa0}, {0xe2, 0x80}, {0x80}, {0xff}, {0xed, 0xa0, 0x80}, {0xc0, 0xaf}, {0xf4, 0x90, 0x80, 0x80}}
 
 func genSoup(r *hx.Rand, bad bool) []byte {
@@ -448,7 +453,8 @@ func genSoup(r *hx.Rand, bad bool) []byte {
 }
 
 var mdSnips = []string{"*", "**", "_", "__", "~~", "||", "`", "``", "```\n", "```go\n", "\n", "\n\n", "> ", "[", "]", "(", ")", "![", "](tg://emoji?id=5)", "](tg://emoji?id=x)", "](tg://user?id=1)", "](tg://user?id=z)", "](http://a.b)", "](%zz)", "]()", "](tg://time?unix=1&format=t)", "](tg://time?unix=q)",
-	"a", "b c", " ", "  \n", "\\*", "\\", "# h", "- li", "1. x", "\t", "\U0001F600", "é ", " ", "&amp;", "<b>", "|", "~"}
+	"a", "b c", " ", "  \n", "\\*", "\\", "# h", "- li", "1. x", "\t", "\U0001F600", "é ", " ", "&amp;", "<b>", "|", "~",
+	"\u07ff", "\u0800", "\ud7ff", "\ue000", "\ufffe", "\uffff", "\U00010000", "\U0010ffff"}
 
 func genMD(r *hx.Rand, bad bool) []byte {
 	var sb bytes.Buffer
@@ -739,6 +745,18 @@ func main() {
 			mdOne("md-corpus", []byte(s))
 		}
 	}
+	// every boundary code point before / inside an entity that ends the text: any over-count of its
+	// UTF-16 units pushes the last entity out of the text
+	for _, b := range boundarySnips {
+		for _, t := range []string{"A<i>x</i>", "<b>A</b><i>x</i>", "<b>A<i>x</i></b>", "<code>xA</code><i>A</i>"} {
+			htmlOne("html-boundary", []byte(fillAB(t, b, "")), false, false, 0)
+		}
+		if !strings.HasPrefix(b, "&") {
+			for _, t := range []string{"A *x*", "*A* *x*", "**A *x***", "`xA` *A*"} {
+				mdOne("md-boundary", []byte(fillAB(t, b, "")))
+			}
+		}
+	}
 	for _, in := range splitRuneInputs(false) {
 		htmlOne("html-split-rune", in, false, false, 0)
 		if c.Thorough() || c.Rng.Chance(1, 3) {
@@ -748,7 +766,7 @@ func main() {
 	for _, in := range splitRuneInputs(true) {
 		mdOne("md-split-rune", in)
 	}
-	for i := c.N(400, 60000); i > 0; i-- {
+	for i := c.N(330, 60000); i > 0; i-- {
 		htmlOne("html-soup", genSoup(c.Rng, false), c.Rng.Chance(1, 5), false, c.Rng.Intn(4)*c.Rng.Intn(2))
 	}
 	for i := c.N(200, 20000); i > 0; i-- {
@@ -767,7 +785,7 @@ func main() {
 		}
 		unescOne(sb.Bytes())
 	}
-	for i := c.N(350, 100000); i > 0; i-- {
+	for i := c.N(280, 100000); i > 0; i-- {
 		mdOne("md-soup", genMD(c.Rng, false))
 	}
 	for i := c.N(100, 20000); i > 0; i-- {
